@@ -98,6 +98,22 @@ pub struct History {
     /// an hour in the past instead of just ahead of the real clock.
     #[serde(default)]
     pub remote: u8,
+    /// resolution of the history's clock (`ticks_per_ms`): all instants of a history are whole ticks
+    /// after its origin; 0..=3 one tick per millisecond, then 2, 64, 1000, 10^6 ticks per millisecond.
+    /// Timeout parameters stay whole milliseconds (configure_timeout documents that resolution);
+    /// advances are in ticks, so with a finer tick polls land between the milliseconds
+    #[serde(default)]
+    pub tick: u8,
+}
+
+pub fn ticks_per_ms(tick: u8) -> u64 {
+    match tick % 8 {
+        0..=3 => 1,
+        4 => 2,
+        5 => 64,
+        6 => 1000,
+        _ => 1_000_000,
+    }
 }
 
 pub const POOL_IDS: [u128; 4] = [
@@ -306,18 +322,18 @@ impl Tx {
     }
 }
 
-fn default_timing(tcp: bool, now: u64) -> Timing {
+fn default_timing(tcp: bool, now: u64, k: u64) -> Timing {
     if tcp {
         Timing::Exact {
             timeouts: vec![],
-            last: 39_500,
+            last: 39_500 * k,
             i: 0,
             last_send: now,
         }
     } else {
         Timing::Exact {
-            timeouts: vec![500, 1000, 2000, 4000, 8000, 16000],
-            last: 8000,
+            timeouts: [500u64, 1000, 2000, 4000, 8000, 16000].iter().map(|t| t * k).collect(),
+            last: 8000 * k,
             i: 0,
             last_send: now,
         }
@@ -552,6 +568,8 @@ pub struct Interp<'h> {
     agent: StunAgent,
     model: Model,
     now: u64,
+    /// ticks per millisecond of this history's clock
+    k: u64,
     pub sum: Summary,
     step: usize,
     transport: TransportType,
@@ -583,14 +601,16 @@ pub fn build_agent(transport: TransportType, remote: u8) -> StunAgent {
     }
 }
 
-fn ms_of(origin: Instant, t: Instant) -> u64 {
-    t.checked_duration_since(origin).map(|d| d.as_millis() as u64).unwrap_or(0)
+/// whole ticks (of 1/k ms) from origin to t
+fn ticks_of(origin: Instant, k: u64, t: Instant) -> u64 {
+    t.checked_duration_since(origin).map(|d| (d.as_nanos() / (1_000_000 / k) as u128) as u64).unwrap_or(0)
 }
 
-fn sub_ms(origin: Instant, t: Instant) -> i128 {
+/// nanoseconds from origin to t (negative before the origin)
+fn exact_ns(origin: Instant, t: Instant) -> i128 {
     match t.checked_duration_since(origin) {
-        Some(d) => d.as_micros() as i128,
-        None => -(origin.duration_since(t).as_micros() as i128),
+        Some(d) => d.as_nanos() as i128,
+        None => -(origin.duration_since(t).as_nanos() as i128),
     }
 }
 
@@ -613,6 +633,7 @@ impl<'h> Interp<'h> {
                 completed_ids: BTreeSet::new(),
             },
             now: 0,
+            k: ticks_per_ms(h.tick),
             sum: Summary::default(),
             step: 0,
             transport,
@@ -653,12 +674,16 @@ impl<'h> Interp<'h> {
         }
     }
 
-    fn at(&self, ms: u64) -> Instant {
-        self.origin + Duration::from_millis(ms)
+    fn at(&self, ticks: u64) -> Instant {
+        self.origin + Duration::from_nanos(ticks * (1_000_000 / self.k))
+    }
+
+    fn tick_ns(&self) -> i128 {
+        (1_000_000 / self.k) as i128
     }
 
     fn d(&self, tag: &'static str, sig: &str, msg: String) -> Disc {
-        disc(tag, sig, self.step, format!("step {} (t={} ms): {}", self.step, self.now, msg))
+        disc(tag, sig, self.step, format!("step {} (t={} ms{}): {}", self.step, self.now, if self.k == 1 { String::new() } else { format!("/{}", self.k) }, msg))
     }
 
     fn check_transmit(&self, tr: &Transmit, bytes: &[u8], dest: SocketAddr, what: &str) -> Result<(), Disc> {
@@ -838,7 +863,7 @@ impl<'h> Interp<'h> {
                         bytes,
                         dest,
                         had_integrity: effective_seal(seal, payload) != 0,
-                        timing: default_timing(self.model.tcp, now),
+                        timing: default_timing(self.model.tcp, now, self.k),
                         send_cancelled: false,
                         recv_cancelled: false,
                         transmissions: 1,
@@ -855,7 +880,7 @@ impl<'h> Interp<'h> {
                                 return Err(self.d("C05", "c05-lost", "mut_request_transaction finds nothing right after a successful send".into()))
                             }
                         }
-                        let (t, l) = configured(self.model.tcp, rto as u64, n as u32, last as u64);
+                        let (t, l) = configured(self.model.tcp, rto as u64 * self.k, n as u32, last as u64 * self.k);
                         tx.max_transmissions = if self.model.tcp { 1 } else { n as u32 + 1 };
                         tx.timing = Timing::Exact {
                             timeouts: t,
@@ -950,7 +975,7 @@ impl<'h> Interp<'h> {
                 let tag = "C06";
                 if now < t {
                     match &ret {
-                        StunAgentPollRet::WaitUntil(t2) if ms_of(self.origin, *t2) == t && sub_ms(self.origin, *t2) == t as i128 * 1000 => {
+                        StunAgentPollRet::WaitUntil(t2) if ticks_of(self.origin, self.k, *t2) == t && exact_ns(self.origin, *t2) == t as i128 * self.tick_ns() => {
                             self.sum.waits_checked += 1;
                         }
                         other => {
@@ -982,8 +1007,8 @@ impl<'h> Interp<'h> {
         }
         match ret {
             StunAgentPollRet::WaitUntil(t) => {
-                let t_ms = ms_of(self.origin, t);
-                let exact_us = sub_ms(self.origin, t);
+                let t_ms = ticks_of(self.origin, self.k, t);
+                let exact_us = exact_ns(self.origin, t);
                 // nothing may be serviceable
                 for (id, tx) in &self.model.outstanding {
                     match tx.due(now) {
@@ -1026,7 +1051,7 @@ impl<'h> Interp<'h> {
                 if !self.model.outstanding.is_empty() {
                     if self.model.all_exact() {
                         let w = self.model.min_wake(now).unwrap();
-                        if exact_us != w as i128 * 1000 {
+                        if exact_us != w as i128 * self.tick_ns() {
                             return Err(self.d(
                                 "C06",
                                 "c06-wrong-wait",
@@ -1042,7 +1067,7 @@ impl<'h> Interp<'h> {
                         self.sum.waits_checked += 1;
                     }
                     self.model.pending_wait = Some(t_ms);
-                    if exact_us != t_ms as i128 * 1000 {
+                    if exact_us != t_ms as i128 * self.tick_ns() {
                         // sub-millisecond instant: cannot be used for the repeat relation
                         self.model.pending_wait = None;
                     }
@@ -1228,7 +1253,7 @@ impl<'h> Interp<'h> {
 
     fn show(&self, r: &StunAgentPollRet) -> String {
         match r {
-            StunAgentPollRet::WaitUntil(t) => format!("WaitUntil({} us)", sub_ms(self.origin, *t)),
+            StunAgentPollRet::WaitUntil(t) => format!("WaitUntil({} ns)", exact_ns(self.origin, *t)),
             StunAgentPollRet::SendData(tr) => format!("SendData({} bytes to {})", tr.data().len(), tr.to),
             StunAgentPollRet::TransactionTimedOut(t) => format!("TransactionTimedOut({})", t),
             StunAgentPollRet::TransactionCancelled(t) => format!("TransactionCancelled({})", t),
@@ -1414,7 +1439,7 @@ impl<'h> Interp<'h> {
                     let at = self.at(self.now);
                     let again = self.agent.poll(at);
                     match &again {
-                        StunAgentPollRet::WaitUntil(t2) if sub_ms(self.origin, *t2) == t as i128 * 1000 => {
+                        StunAgentPollRet::WaitUntil(t2) if exact_ns(self.origin, *t2) == t as i128 * self.tick_ns() => {
                             self.sum.timer_checked_after_drop += 1;
                         }
                         other => {
@@ -1505,10 +1530,10 @@ impl<'h> Interp<'h> {
                 let target = match a {
                     Adv::Zero => self.now,
                     Adv::Ms(d) => self.now + *d as u64,
-                    Adv::ToWakeMinus(d) => wake.map(|w| w.saturating_sub(*d as u64 + 1)).unwrap_or(self.now + 1000),
-                    Adv::ToWake => wake.unwrap_or(self.now + 1000),
-                    Adv::ToWakePlus(d) => wake.map(|w| w + *d as u64).unwrap_or(self.now + 1000),
-                    Adv::Far => self.now + 120_000,
+                    Adv::ToWakeMinus(d) => wake.map(|w| w.saturating_sub(*d as u64 + 1)).unwrap_or(self.now + 1000 * self.k),
+                    Adv::ToWake => wake.unwrap_or(self.now + 1000 * self.k),
+                    Adv::ToWakePlus(d) => wake.map(|w| w + *d as u64).unwrap_or(self.now + 1000 * self.k),
+                    Adv::Far => self.now + 120_000 * self.k,
                 };
                 self.now = self.now.max(target);
             }
@@ -1572,7 +1597,7 @@ impl<'h> Interp<'h> {
                         // one was, are facts it cannot change. (Transactions whose retransmissions
                         // were cancelled have no prescribed end and stay loose.)
                         if let Timing::Exact { timeouts, last, i, .. } = &mut tx.timing {
-                            let (t, l) = configured(tcp, *rto_ms as u64, *retransmits as u32, *last_ms as u64);
+                            let (t, l) = configured(tcp, *rto_ms as u64 * self.k, *retransmits as u32, *last_ms as u64 * self.k);
                             *timeouts = t;
                             *last = l;
                             if *i > 0 {
@@ -1638,7 +1663,7 @@ impl<'h> Interp<'h> {
                         // sub-millisecond or loose: ask again slightly later
                         let r = self.agent.poll(at);
                         if let StunAgentPollRet::WaitUntil(t) = r {
-                            let t = ms_of(self.origin, t);
+                            let t = ticks_of(self.origin, self.k, t);
                             self.now = if t > now { t } else { now + 1 };
                             // the extra poll was not model-checked; it cannot have produced an event
                         } else {
@@ -1689,6 +1714,7 @@ pub fn shift_config(h: &History, d: u32) -> History {
     History {
         tcp: h.tcp,
         remote: h.remote,
+        tick: h.tick,
         ops: h
             .ops
             .iter()
@@ -1739,6 +1765,7 @@ pub fn without_steps(h: &History, steps: &[usize], drained: &[usize]) -> History
     History {
         tcp: h.tcp,
         remote: h.remote,
+        tick: h.tick,
         ops: h
             .ops
             .iter()
@@ -1891,8 +1918,8 @@ pub fn op_strategy(p: Profile) -> BoxedStrategy<Op> {
 }
 
 pub fn history_strategy(p: Profile, max_ops: usize) -> BoxedStrategy<History> {
-    (prop_oneof![3 => Just(false), 1 => Just(true)], vec(op_strategy(p), 0..=max_ops), prop_oneof![3 => Just(0u8), 1 => 1u8..=N_PEERS], prop_oneof![5 => Just(0u8), 1 => 1u8..4], prop_oneof![3 => Just(0u8), 1 => Just(0x40u8)])
-        .prop_map(|(tcp, ops, remote, local, past)| History { tcp, ops, remote: remote | (local << 4) | past })
+    (prop_oneof![3 => Just(false), 1 => Just(true)], vec(op_strategy(p), 0..=max_ops), prop_oneof![3 => Just(0u8), 1 => 1u8..=N_PEERS], prop_oneof![5 => Just(0u8), 1 => 1u8..4], prop_oneof![3 => Just(0u8), 1 => Just(0x40u8)], 0u8..8)
+        .prop_map(|(tcp, ops, remote, local, past, tick)| History { tcp, ops, remote: remote | (local << 4) | past, tick })
         .boxed()
 }
 
@@ -1917,10 +1944,12 @@ pub fn record_run_clock(
     forced: Option<&[u64]>,
 ) -> Option<(Vec<Vec<String>>, Vec<u64>)> {
     let restrict_to: Option<u8> = None;
+    let k = ticks_per_ms(h.tick);
+    let tick_ns = 1_000_000 / k;
     let send_at = |id: u8, now: u64| -> Instant {
         match skew {
-            Some((focus, ms)) if id != focus => origin + Duration::from_millis(now + ms),
-            _ => origin + Duration::from_millis(now),
+            Some((focus, ms)) if id != focus => origin + Duration::from_nanos(now * tick_ns) + Duration::from_millis(ms),
+            _ => origin + Duration::from_nanos(now * tick_ns),
         }
     };
     let transport = if h.tcp { TransportType::Tcp } else { TransportType::Udp };
@@ -1930,22 +1959,22 @@ pub fn record_run_clock(
     let mut now = 0u64;
     let mut clock: Vec<u64> = vec![];
     let mut last_wait: Option<u64> = None;
-    let rel = |t: Instant| sub_ms(origin, t);
+    let rel = |t: Instant| exact_ns(origin, t);
     for (step, op) in h.ops.iter().enumerate() {
         // unrelated agents are created and operated in between
         if other_agents > 0 && step % 3 == 0 && others.len() < other_agents as usize {
             let mut o = StunAgent::builder(transport, "10.9.9.9:1".parse().unwrap()).build();
             with_request(pool_id(0), 0, 0, step as u8 as u16, |b, _| {
-                let _ = o.send(b, peer(1), origin + Duration::from_millis(now + 17));
+                let _ = o.send(b, peer(1), origin + Duration::from_nanos(now * tick_ns) + Duration::from_millis(17));
             });
             others.push(o);
         }
         for o in others.iter_mut() {
-            let _ = o.poll(origin + Duration::from_millis(now + 977));
+            let _ = o.poll(origin + Duration::from_nanos(now * tick_ns) + Duration::from_millis(977));
         }
         let concerns = |id: u8| restrict_to.map_or(true, |r| r == id);
         let mut replies: Vec<String> = vec![];
-        let at = |ms: u64| origin + Duration::from_millis(ms);
+        let at = |ticks: u64| origin + Duration::from_nanos(ticks * tick_ns);
         match op {
             Op::Send { id, class, seal, dest, payload } => {
                 if concerns(*id) {
@@ -1985,9 +2014,9 @@ pub fn record_run_clock(
                     Adv::Zero => now,
                     Adv::Ms(d) => now + *d as u64,
                     Adv::ToWakeMinus(d) => wake.map(|w| w.saturating_sub(*d as u64 + 1).max(now)).unwrap_or(now + *d as u64),
-                    Adv::ToWake => wake.unwrap_or(now + 500),
+                    Adv::ToWake => wake.unwrap_or(now + 500 * k),
                     Adv::ToWakePlus(d) => wake.map(|w| w + *d as u64).unwrap_or(now + *d as u64),
-                    Adv::Far => now + 120_000,
+                    Adv::Far => now + 120_000 * k,
                 };
                 if let Some(f) = forced {
                     now = f.get(step).copied().unwrap_or(now);
@@ -2003,7 +2032,7 @@ pub fn record_run_clock(
                                 replies.push(format!("wait {}", rel(t)));
                             }
                             let r = rel(t);
-                            last_wait = if r > 0 && r < 4_000_000_000_000 { Some((r / 1000) as u64) } else { None };
+                            last_wait = if r > 0 && r < 4_000_000_000_000_000 { Some((r / tick_ns as i128) as u64) } else { None };
                             settled = true;
                             break;
                         }
